@@ -187,18 +187,18 @@ package gpbft
 
 //@ axiom validation_error_sentinels_are_distinct: ErrValidationInvalid != ErrValidationTooOld && ErrValidationInvalid != ErrValidationNoCommittee && ErrValidationInvalid != ErrValidationNotRelevant && ErrValidationInvalid != ErrValidationWrongBase && ErrValidationInvalid != ErrValidationWrongSupplement && ErrValidationTooOld != ErrValidationNoCommittee && ErrValidationTooOld != ErrValidationNotRelevant && ErrValidationNoCommittee != ErrValidationNotRelevant
 
-//@ pred noWrap(cur uint64, lookback uint64) = lookback > 0 && cur + lookback <= 18446744073709551615
+//@ pred windowNoWrap(cur uint64, lookback uint64) = lookback > 0 && cur + lookback <= 18446744073709551615
 
 //@ func (*cachingValidator).validateByProgress
 //@   property C05 C13
 //@   modifies auto
 //@   at return 0
-//@     before[beyond_the_committee_lookback_is_no_committee] noWrap(res(progress, 1).ID, v.committeeLookback) && msg.Vote.Instance >= res(progress, 1).ID + v.committeeLookback ==> arg(0) == ErrValidationNoCommittee
-//@     before[future_instances_inside_the_lookback_pass] noWrap(res(progress, 1).ID, v.committeeLookback) && msg.Vote.Instance > res(progress, 1).ID && msg.Vote.Instance < res(progress, 1).ID + v.committeeLookback ==> arg(0) == nil
-//@     before[decide_of_the_previous_instance_passes] noWrap(res(progress, 1).ID, v.committeeLookback) && msg.Vote.Instance + 1 == res(progress, 1).ID && msg.Vote.Phase == DECIDE_PHASE ==> arg(0) == nil
-//@     before[older_than_that_is_too_old] noWrap(res(progress, 1).ID, v.committeeLookback) && msg.Vote.Instance < res(progress, 1).ID && !(msg.Vote.Instance + 1 == res(progress, 1).ID && msg.Vote.Phase == DECIDE_PHASE) ==> arg(0) == ErrValidationTooOld
-//@     before[current_instance_relevant_messages_pass] noWrap(res(progress, 1).ID, v.committeeLookback) && msg.Vote.Instance == res(progress, 1).ID && relevantNow(msg.Vote.Phase, msg.Vote.Round, res(progress, 1).Phase, res(progress, 1).Round) ==> arg(0) == nil
-//@     before[current_instance_irrelevant_messages_are_not_relevant] noWrap(res(progress, 1).ID, v.committeeLookback) && msg.Vote.Instance == res(progress, 1).ID && !relevantNow(msg.Vote.Phase, msg.Vote.Round, res(progress, 1).Phase, res(progress, 1).Round) ==> arg(0) == ErrValidationNotRelevant
+//@     before[beyond_the_committee_lookback_is_no_committee] windowNoWrap(res(progress, 1).ID, v.committeeLookback) && msg.Vote.Instance >= res(progress, 1).ID + v.committeeLookback ==> arg(0) == ErrValidationNoCommittee
+//@     before[future_instances_inside_the_lookback_pass] windowNoWrap(res(progress, 1).ID, v.committeeLookback) && msg.Vote.Instance > res(progress, 1).ID && msg.Vote.Instance < res(progress, 1).ID + v.committeeLookback ==> arg(0) == nil
+//@     before[decide_of_the_previous_instance_passes] windowNoWrap(res(progress, 1).ID, v.committeeLookback) && msg.Vote.Instance + 1 == res(progress, 1).ID && msg.Vote.Phase == DECIDE_PHASE ==> arg(0) == nil
+//@     before[older_than_that_is_too_old] windowNoWrap(res(progress, 1).ID, v.committeeLookback) && msg.Vote.Instance < res(progress, 1).ID && !(msg.Vote.Instance + 1 == res(progress, 1).ID && msg.Vote.Phase == DECIDE_PHASE) ==> arg(0) == ErrValidationTooOld
+//@     before[current_instance_relevant_messages_pass] windowNoWrap(res(progress, 1).ID, v.committeeLookback) && msg.Vote.Instance == res(progress, 1).ID && relevantNow(msg.Vote.Phase, msg.Vote.Round, res(progress, 1).Phase, res(progress, 1).Round) ==> arg(0) == nil
+//@     before[current_instance_irrelevant_messages_are_not_relevant] windowNoWrap(res(progress, 1).ID, v.committeeLookback) && msg.Vote.Instance == res(progress, 1).ID && !relevantNow(msg.Vote.Phase, msg.Vote.Round, res(progress, 1).Phase, res(progress, 1).Round) ==> arg(0) == ErrValidationNotRelevant
 //@     before[never_branded_invalid_here] arg(0) != ErrValidationInvalid
 
 // Committees handed out by a provider carry a well-formed power table (the shape PowerTable.Add / rescale establish).
@@ -359,3 +359,39 @@ package gpbft
 //@     before[the_message_handed_on_is_the_completed_one] pmsg == res(PartialMessage, 1)
 //@   at return 0
 //@     before[accepted_only_at_the_end] arg(1) == nil ==> dominatedBy(validateByProgress, 1)
+
+// ---- C03: a reported decision is a verifiable finality proof ----
+
+//@ func sort.Ints
+//@   trusted sort.Ints sorts the slice in place
+//@   modifies x[]
+//@   ensures forall(i, 0, len(x) - 1, x[i] <= x[i+1], trigger(x[i]))
+
+// Sum of scaled power over the first n entries of an index list.
+//@ spec func isum(sp []int64, idx []int, n mathint) mathint
+//@ pred isumDef(sp []int64, idx []int) = isum(sp, idx, 0) == 0
+//@     && forall(k, 0, len(idx), isum(sp, idx, k+1) == isum(sp, idx, k) + sp[idx[k]], trigger(idx[k]))
+
+// The quorum handed out for a key: table indices in increasing order, all inside the table, one stored signature per
+// index, and the scaled power of exactly these indices is a strong quorum of the table's total.
+//@ func (*quorumState).FindStrongQuorumFor
+//@   property C03
+//@   requires q.powerTable != nil && tblOK(q.powerTable)
+//@   modifies auto
+//@   maypanic
+//@   ensures[only_with_a_recorded_strong_quorum] result1 ==> old(has(q.chainSupport, key) && q.chainSupport[key].hasStrongQuorum)
+//@   ensures[signers_are_table_indices_in_increasing_order] result1 ==> forall(j, 0, len(result0.Signers), 0 <= result0.Signers[j] && result0.Signers[j] < len(q.powerTable.Entries)) && forall(j, 0, len(result0.Signers) - 1, result0.Signers[j] <= result0.Signers[j+1], trigger(result0.Signers[j]))
+//@   ensures[one_signature_per_signer] result1 ==> len(result0.Signatures) == len(result0.Signers) && len(result0.Signers) > 0
+//@   at return 2
+//@     before[the_listed_signers_power_is_a_strong_quorum] justificationPower == isum(q.powerTable.ScaledPower, signers, i + 1) && res(IsStrongQuorum, 1) && argOf(IsStrongQuorum, 1, 0) == justificationPower && argOf(IsStrongQuorum, 1, 1) == q.powerTable.ScaledTotal
+//@          && 3 * isum(q.powerTable.ScaledPower, signers, i + 1) >= 2 * q.powerTable.ScaledTotal
+//@     before[signatures_are_the_stored_ones_of_the_signers] forall(j, 0, i + 1, signatures[j] == chainSupport.signatures[q.powerTable.Entries[signers[j]].ID], trigger(signatures[j]))
+//@   loop 1
+//@     invariant q.powerTable == old(q.powerTable)
+//@   loop 2
+//@     assume isumDef(q.powerTable.ScaledPower, signers)
+//@     invariant justificationPower == isum(q.powerTable.ScaledPower, signers, iter) && 0 <= justificationPower && justificationPower <= 65535 * iter && iter <= len(signers)
+//@     invariant len(signatures) == iter && q.powerTable == old(q.powerTable) && tblOK(q.powerTable)
+//@     invariant forall(j, 0, iter, 0 <= signers[j] && signers[j] < len(q.powerTable.Entries))
+//@     invariant forall(j, 0, iter, signatures[j] == chainSupport.signatures[q.powerTable.Entries[signers[j]].ID], trigger(signatures[j]))
+//@     invariant forall(j, 0, len(signers) - 1, signers[j] <= signers[j+1], trigger(signers[j]))
